@@ -214,6 +214,10 @@ def main(tier):
                     if tier == 'quick' and (nd + scale + MODES.index(mode)) % 2 and nd not in (1, w):
                         continue
                     tasks.append({'entry': 'sqrt_with_context', 'nd': nd, 'scale': scale, 'p': p, 'mode': mode, 'sign': 1})
+    if tier == 'thorough':
+        # the default precision (100 digits): a handful of short inputs, ~2 min each (210-digit integer roots)
+        for (nd, scale, mode) in [(2, 1, 'HalfEven'), (3, 0, 'Up'), (1, -1, 'Floor')]:
+            tasks.append({'entry': 'sqrt_with_context', 'nd': nd, 'scale': scale, 'p': 100, 'mode': mode, 'sign': 1})
     # parity region probe: the check must still SEE the defect there (vacuity guard for the exclusion)
     tasks.append({'entry': 'sqrt_with_context', 'nd': 2 * (1 + 5) + 1, 'scale': 0, 'p': 1, 'mode': 'Down', 'sign': 1, 'probe': 'parity'})
     # reference variants, negative inputs, zero
